@@ -179,6 +179,19 @@ pub fn all() -> Vec<History> {
         Act::Register { own: Own::R(0), action: act(None, Some(WLoc::WR(0)), vec![Act::Upgrade { src: WLoc::Cap, dst: Dst::G(0) }]), dst: 0 },
         Act::WDrop { dst: WLoc::WR(0) }, Act::CDrop { c: 0 }, drop_r(0), drop_r(1), Act::CollectQuiet, Act::Query, Act::Drop { dst: Dst::G(0) }, Act::CollectQuiet,
     ]));
+    // hidden-owned object released by the drop glue of a ring member during the collector's drop phase; its finalizer
+    // upgrades a Weak to the other (not yet dropped, or already dropped) member, both ring orders
+    v.push(("upgrade_peer_from_finalizer_nested_in_drop_phase", vec![
+        new(0), new(1), set(0, 0, 1), set(1, 0, 0),
+        new_spec(2, vec![Act::Upgrade { src: WLoc::Of(Own::Me, 1), dst: Dst::G(0) }], vec![DAct::UpgradeW(1)]), Act::Downgrade { src: Src::R(1), dst: WLoc::Of(Own::R(2), 1) }, Act::Take { src: Src::R(2), dst: Dst::Slot(Own::R(0), true, 0) },
+        new_spec(3, vec![Act::Upgrade { src: WLoc::Of(Own::Me, 1), dst: Dst::Discard }], vec![]), Act::Downgrade { src: Src::R(0), dst: WLoc::Of(Own::R(3), 1) }, Act::Take { src: Src::R(3), dst: Dst::Slot(Own::R(1), true, 0) },
+        drop_r(0), drop_r(1), Act::CollectQuiet, Act::Query, Act::Drop { dst: Dst::G(0) }, Act::CollectQuiet,
+    ]));
+    v.push(("upgrade_peer_from_finalizer_nested_in_drop_phase_rev", vec![
+        new(0), new(1), set(0, 0, 1), set(1, 0, 0),
+        new_spec(2, vec![Act::Upgrade { src: WLoc::Of(Own::Me, 1), dst: Dst::G(0) }], vec![DAct::UpgradeW(1)]), Act::Downgrade { src: Src::R(1), dst: WLoc::Of(Own::R(2), 1) }, Act::Take { src: Src::R(2), dst: Dst::Slot(Own::R(0), true, 0) },
+        drop_r(1), drop_r(0), Act::CollectQuiet, Act::Query, Act::Drop { dst: Dst::G(0) }, Act::CollectQuiet,
+    ]));
     // auto collection triggered inside Cc::new with callbacks
     v.push(("auto_collect_in_new", vec![
         Act::Config { auto: true, percent: 2, buffered: 1 },
